@@ -203,7 +203,11 @@ Proof.
   cbn [repeat]. f_equal; [lia|]. apply IH. exact Hm.
 Qed.
 
-Lemma decode_field_ok : forall tid m v5 f, C24_REPAIR = 1 ->
+(* the C24 repair is present in the tree (kept folded so that the proof scripts do not
+   depend on the value of the constant) *)
+Inductive repaired : Prop := repaired_intro (H : C24_REPAIR = 1).
+
+Lemma decode_field_ok : forall tid m v5 f, repaired ->
   wf_bytes m -> blen m <= 65531 -> (v5 = false -> blen m mod 4 = 0) ->
   0 <= tid < 65536 -> tid <> T_ENCRYPTED ->
   decode_field tid m v5 = Ok f -> field_ok v5 f.
@@ -223,7 +227,7 @@ Proof.
     apply bind_ok_inv in H. destruct H as ([plen off] & Hr & H).
     unfold refreq_decode in Hr. destruct (blen m >? 65535); [discriminate|].
     destruct (slice m 0 2) as [ob|] eqn:Es; [|discriminate]. inversion Hr; subst; clear Hr.
-    rewrite Hrep in H. cbn [Z.eqb orb] in H.
+    destruct Hrep as [Hrep]. rewrite Hrep in H. clear Hrep. cbn [Z.eqb orb] in H.
     destruct (blen m mod 4 =? 0) eqn:Em; inversion H; subst. cbn [field_ok].
     pose proof (wf_slice _ _ _ _ Hwf Es) as Hwo. apply slice_some in Es. destruct Es as (_ & _ & ? & _ & Hbl).
     pose proof (be_bound ob Hwo) as Hb. rewrite Hbl in Hb. change (256 ^ (2 - 0)) with 65536 in Hb.
@@ -238,7 +242,7 @@ Definition inv (v5 : bool) (st : lstate) : Prop :=
   authenticated (l_ef st) = [] /\ encrypted (l_ef st) = [] /\ l_cookie st = None /\
   (l_valid st = true -> Forall (field_ok v5) (untrusted (l_ef st))).
 
-Lemma noks_loop : forall dec data hs v5 buf, C24_REPAIR = 1 -> wf_bytes buf ->
+Lemma noks_loop : forall dec data hs v5 buf, repaired -> wf_bytes buf ->
   forall fuel offset st st', inv v5 st -> l_size st = offset -> 0 <= offset <= blen buf ->
   ef_loop fuel dec NoKeys data hs v5 buf offset st = Ok st' ->
   inv v5 st' /\ 0 <= l_size st' <= blen buf /\ blen (bdrop (l_size st') buf) <= ef_cutoff v5.
@@ -493,7 +497,7 @@ Definition body_ok (v5 : bool) (d : efdata) (m : option mac) (tail : bytes) : Pr
   authenticated d = [] /\ encrypted d = [] /\ Forall (field_ok v5) (untrusted d) /\
   mac_wire m = tail /\ blen tail <= ef_cutoff v5 /\ wf_bytes tail.
 
-Lemma with_fields_accept : forall dec data h v5 p c, C24_REPAIR = 1 -> wf_bytes data -> 48 <= blen data ->
+Lemma with_fields_accept : forall dec data h v5 p c, repaired -> wf_bytes data -> 48 <= blen data ->
   with_fields dec NoKeys data h 48 v5 = Ok (Accept p c) ->
   c = None /\ p_header p = h /\ exists tail, body_ok v5 (p_ef p) (p_mac p) tail.
 Proof.
@@ -572,7 +576,7 @@ Proof.
   - injection Hmac as Hq. destruct (p_header p); cbn [res_bind w_out]; rewrite <- Hq; reflexivity.
 Qed.
 
-Theorem reencode_ok : C24_REPAIR = 1 -> forall dec data p c, wf_bytes data ->
+Theorem reencode_ok : repaired -> forall dec data p c, wf_bytes data ->
   deserialize dec NoKeys data = Ok (Accept p c) ->
   c = None /\ exists b1, forall enc cap, blen b1 <= cap -> serialize enc None cap None p = Ok b1.
 Proof.
